@@ -195,12 +195,12 @@ Proof.
   destruct (RoundTrip.Spell_cons_inv P _ _ _ _ HS) as [t [la' [-> [Hk [Hv HS']]]]]. cbn [app] in HU.
   unfold unop_ok in Ho. unfold opk in Hk. destruct (punct_kind_l o) as [k|]; [|discriminate Ho].
   destruct (unop_kind_facts k Ho) as [HnoLP [Hpp [Hin _]]]. rewrite <- Hk in HnoLP, Hpp, Hin.
-  destruct (tptn_no_paren P s t _ HU HnoLP) as [s1 [H1 HU1]].
-  destruct (peek_kind_up P s1 t _ HU1) as [s2 [H2 [HU2 _]]].
-  destruct (advance_up P s2 t _ HU2) as [s3 [H3 [HU3 _]]].
-  destruct (HC s3 la' n l HS' HU3 Hq) as [f0 [N [s4 [H4 [HU4 HN]]]]].
+  destruct (tptn_no_paren_c P s t _ HU HnoLP) as [s1 [H1 [HU1 HC1]]].
+  destruct (peek_kind_up P s1 t _ HU1) as [s2 [H2 [HU2 HC2]]].
+  destruct (advance_up P s2 t _ HU2) as [s3 [H3 [HU3 HC3]]].
+  destruct (HC s3 la' n l HS' HU3 Hq) as [f0 [N [s4 [H4 [HU4 [HN HL4]]]]]].
   rewrite EX in HN. destruct (strip_vnode _ _ _ _ HN) as [fs' [co' EN]].
-  exists (S (S f0)), (mkN P C_UnaryOp [VStr (tv t); N] co'), s4. split; [|split; [exact HU4|]].
+  exists (S (S f0)), (mkN P C_UnaryOp [VStr (tv t); N] co'), s4. split; [|split; [exact HU4|split; [|cost_tac]]].
   - intros f Hf. destruct f as [|[|f]]; try lia. rewrite (cast_eq P). unfold bind at 1. rewrite H1.
     rewrite (unary_eq P). unfold bind at 1. rewrite H2. rewrite Hpp, Hin.
     unfold bind at 1. rewrite H3. unfold bind at 1. rewrite (H4 f) by lia. unfold bind at 1.
@@ -220,17 +220,17 @@ Proof.
   destruct (RoundTrip.Spell_cons_inv P _ _ _ _ HS4) as [cl [lf [-> [Hck [_ HSf]]]]].
   rewrite <- app_assoc in HU. cbn [app] in HU. rewrite <- app_assoc in HU. cbn [app] in HU.
   assert (Hqq: quiet (tk q) = true) by (rewrite Hqk; reflexivity).
-  destruct (HCc s lc q _ HSc HU Hqq) as [f1 [Nc [s1 [H1 [HU1 HNc]]]]].
-  destruct (peek_up P s1 q _ HU1) as [s2 [Hp [HU2 _]]].
+  destruct (HCc s lc q _ HSc HU Hqq) as [f1 [Nc [s1 [H1 [HU1 [HNc HL1]]]]]].
+  destruct (peek_up P s1 q _ HU1) as [s2 [Hp [HU2 HC2]]].
   assert (Hqc: kind_eqb (tk q) K_CONDOP = true) by (rewrite Hqk; reflexivity).
-  destruct (accept_hit P s2 q _ K_CONDOP HU2 Hqc) as [s3 [Ha [HU3 _]]].
+  destruct (accept_hit P s2 q _ K_CONDOP HU2 Hqc) as [s3 [Ha [HU3 HC3]]].
   assert (Hce: estop (tk cl) = true) by (rewrite Hck; reflexivity).
-  destruct (HEt s3 lt cl _ HSt HU3 Hce) as [f2 [Nt [s4 [H4 [HU4 HNt]]]]].
+  destruct (HEt s3 lt cl _ HSt HU3 Hce) as [f2 [Nt [s4 [H4 [HU4 [HNt HL4]]]]]].
   assert (Hcc: kind_eqb (tk cl) K_COLON = true) by (rewrite Hck; reflexivity).
-  destruct (expect_up P s4 cl _ K_COLON HU4 Hcc) as [s5 [H5 [HU5 _]]].
-  destruct (HCf s5 lf stop l0 HSf HU5 Hst) as [f3 [Nf [s6 [H6 [HU6 HNf]]]]].
+  destruct (expect_up P s4 cl _ K_COLON HU4 Hcc) as [s5 [H5 [HU5 HC5]]].
+  destruct (HCf s5 lf stop l0 HSf HU5 Hst) as [f3 [Nf [s6 [H6 [HU6 [HNf HL6]]]]]].
   rewrite EX in HNc. destruct (strip_vnode _ _ _ _ HNc) as [fs' [co' ENc]].
-  exists (S (S (Nat.max f1 (Nat.max f2 f3)))), (mkN P C_TernaryOp [Nc; Nt; Nf] co'), s6. split; [|split; [exact HU6|]].
+  exists (S (S (Nat.max f1 (Nat.max f2 f3)))), (mkN P C_TernaryOp [Nc; Nt; Nf] co'), s6. split; [|split; [exact HU6|split; [|cost_tac]]].
   - intros f Hf. destruct f as [|[|f]]; try lia. rewrite (cond_eq P). unfold bind at 1. rewrite (H1 (S f)) by lia.
     unfold bind at 1. rewrite (climb_eq P). unfold bind at 1. rewrite Hp. rewrite Hqk.
     change (prec_of K_CONDOP) with (@None nat). unfold ret at 1.
@@ -248,13 +248,13 @@ Proof.
   destruct (RoundTrip.Spell_cons_inv P _ _ _ _ HS2) as [opt [lr [-> [Hok [Hov HSr]]]]].
   unfold asgop_ok in Ho. unfold opk in Hok. destruct (punct_kind_l o) as [k|]; [|discriminate Ho]. rewrite <- Hok in Ho.
   rewrite <- app_assoc in HU. cbn [app] in HU.
-  destruct (asg_pre P kl s ll (opt :: lr ++ stop :: l0) Hfo HSl HU) as [s1 [HU1 Hpre]].
-  destruct (HCl s1 ll opt _ HSl HU1 (asg_kind_facts _ Ho)) as [f1 [Nl [s2 [H2 [HU2 HNl]]]]].
-  destruct (peek_up P s2 opt _ HU2) as [s3 [Hp [HU3 _]]].
-  destruct (advance_up P s3 opt _ HU3) as [s4 [Had [HU4 _]]].
-  destruct (HAr s4 lr stop l0 HSr HU4 Hst) as [f2 [Nr [s5 [H5 [HU5 HNr]]]]].
+  destruct (asg_pre P kl s ll (opt :: lr ++ stop :: l0) Hfo HSl HU) as [s1 [HU1 [Hpre HC1]]].
+  destruct (HCl s1 ll opt _ HSl HU1 (asg_kind_facts _ Ho)) as [f1 [Nl [s2 [H2 [HU2 [HNl HL2]]]]]].
+  destruct (peek_up P s2 opt _ HU2) as [s3 [Hp [HU3 HC3]]].
+  destruct (advance_up P s3 opt _ HU3) as [s4 [Had [HU4 HC4]]].
+  destruct (HAr s4 lr stop l0 HSr HU4 Hst) as [f2 [Nr [s5 [H5 [HU5 [HNr HL5]]]]]].
   rewrite EX in HNl. destruct (strip_vnode _ _ _ _ HNl) as [fs' [co' ENl]].
-  exists (S (Nat.max f1 f2)), (mkN P C_Assignment [VStr (tv opt); Nl; Nr] co'), s5. split; [|split; [exact HU5|]].
+  exists (S (Nat.max f1 f2)), (mkN P C_Assignment [VStr (tv opt); Nl; Nr] co'), s5. split; [|split; [exact HU5|split; [|cost_tac]]].
   - intros f Hf. destruct f as [|f]; [lia|]. rewrite Hpre. unfold asg_body. unfold bind at 1. rewrite (H2 f) by lia.
     unfold bind at 1. rewrite Hp. rewrite Ho. unfold bind at 1. rewrite Had. unfold bind at 1. rewrite (H5 f) by lia.
     unfold bind at 1. unfold coordA, lift_opt. rewrite ENl. cbn [get_coord]. reflexivity.
@@ -264,7 +264,7 @@ Qed.
 (* ---- postfix chains: the primary at the head, then the suffix loop with an accumulator ---- *)
 Definition R (kvs: list (kind * str)) (X: value unit) : Prop :=
   forall (s: pstate) le rest, Spell le kvs -> Up s (le ++ rest) ->
-  exists d N s', Up s' rest /\ strip N = X /\
+  exists d N s', Up s' rest /\ strip N = X /\ RanR P s s' (length le) /\
     forall f, d <= f -> exists f1, f <= f1 + d /\
       bind P (p_primary_expression P f) (fun e0 => p_postfix_suffixes P f e0) s = p_postfix_suffixes P f1 N s'.
 
@@ -272,11 +272,11 @@ Lemma R_id : forall a, R [(K_ID, a)] (VNode C_ID [VStr a] None).
 Proof.
   intros a s le rest HS HU. destruct (RoundTrip.Spell_cons_inv P _ _ _ _ HS) as [t [l2 [-> [Hk [Hv HS2]]]]].
   apply (RoundTrip.Spell_nil_inv P) in HS2. subst l2. cbn [app] in HU.
-  destruct (peek_kind_up P s t _ HU) as [s1 [H1 [HU1 _]]].
+  destruct (peek_kind_up P s t _ HU) as [s1 [H1 [HU1 HC1]]].
   assert (HisID: kind_eqb (tk t) K_ID = true) by (rewrite Hk; reflexivity).
-  destruct (expect_up P s1 t _ K_ID HU1 HisID) as [s2 [H2 [HU2 _]]].
+  destruct (expect_up P s1 t _ K_ID HU1 HisID) as [s2 [H2 [HU2 HC2]]].
   exists 1, (mkN P C_ID [VStr (tv t)] (Some (mkCoord P (curfile P s2) (tp t)))), s2. split; [exact HU2|]. split; [unfold mkN; cbn; rewrite Hv; reflexivity|].
-  intros f Hf. destruct f as [|f]; [lia|]. exists (S f). split; [lia|].
+  split; [cost_tac|]. intros f Hf. destruct f as [|f]; [lia|]. exists (S f). split; [lia|].
   unfold bind at 1. rewrite (primary_eq P). unfold bind at 1. rewrite H1. cbn [okind_is]. rewrite HisID.
   unfold p_identifier. unfold bind at 1. rewrite H2. unfold bind at 1. unfold tcoord, tok_coord, cur_file.
   unfold bind at 1. unfold bind at 1. unfold bind at 1. unfold get at 1. unfold ret at 1. unfold ret at 1. unfold ret at 1. unfold ret at 1. reflexivity.
@@ -289,14 +289,14 @@ Proof.
   destruct (RoundTrip.Spell_app_inv P _ _ _ HS2) as [li [l3 [-> [HSi HS3]]]].
   destruct (RoundTrip.Spell_cons_inv P _ _ _ _ HS3) as [rpt [l4 [-> [Hrp [_ HS4]]]]]. apply (RoundTrip.Spell_nil_inv P) in HS4. subst l4.
   cbn [app] in HU. rewrite <- app_assoc in HU. cbn [app] in HU.
-  destruct (peek_kind_up P s lp _ HU) as [s1 [H1 [HU1 _]]].
-  destruct (advance_up P s1 lp _ HU1) as [s2 [H2 [HU2 _]]].
+  destruct (peek_kind_up P s lp _ HU) as [s1 [H1 [HU1 HC1]]].
+  destruct (advance_up P s1 lp _ HU1) as [s2 [H2 [HU2 HC2]]].
   assert (Hre: estop (tk rpt) = true) by (rewrite Hrp; reflexivity).
-  destruct (HE s2 li rpt rest HSi HU2 Hre) as [f0 [N [s3 [H3 [HU3 HN]]]]].
+  destruct (HE s2 li rpt rest HSi HU2 Hre) as [f0 [N [s3 [H3 [HU3 [HN HL3]]]]]].
   assert (Hrk: kind_eqb (tk rpt) K_RPAREN = true) by (rewrite Hrp; reflexivity).
-  destruct (expect_up P s3 rpt _ K_RPAREN HU3 Hrk) as [s4 [H4 [HU4 _]]].
+  destruct (expect_up P s3 rpt _ K_RPAREN HU3 Hrk) as [s4 [H4 [HU4 HC4]]].
   exists (S f0), N, s4. split; [exact HU4|]. split; [exact HN|].
-  intros f Hf. destruct f as [|f]; [lia|]. exists (S f). split; [lia|].
+  split; [cost_tac|]. intros f Hf. destruct f as [|f]; [lia|]. exists (S f). split; [lia|].
   unfold bind at 1. rewrite (primary_eq P). unfold bind at 1. rewrite H1. rewrite Hlp.
   assert (Hpp: primary_paren K_LPAREN = true) by reflexivity.
   unfold primary_paren in Hpp. do 4 (apply andb_true_iff in Hpp; destruct Hpp as [Hpp ?]).
@@ -314,16 +314,16 @@ Proof.
   destruct (RoundTrip.Spell_app_inv P _ _ _ HS3) as [li [l4 [-> [HSi HS4]]]].
   destruct (RoundTrip.Spell_cons_inv P _ _ _ _ HS4) as [rbr [l5 [-> [Hrk [_ HS5]]]]]. apply (RoundTrip.Spell_nil_inv P) in HS5. subst l5.
   rewrite <- app_assoc in HU. cbn [app] in HU. rewrite <- app_assoc in HU. cbn [app] in HU.
-  destruct (HRb s lb _ HSb HU) as [db [Nb [s1 [HU1 [HNb Hred]]]]].
+  destruct (HRb s lb _ HSb HU) as [db [Nb [s1 [HU1 [HNb [HL1 Hred]]]]]].
   assert (Hlb: kind_eqb (tk lbr) K_LBRACKET = true) by (rewrite Hlk; reflexivity).
-  destruct (accept_hit P s1 lbr _ K_LBRACKET HU1 Hlb) as [s2 [H2 [HU2 _]]].
+  destruct (accept_hit P s1 lbr _ K_LBRACKET HU1 Hlb) as [s2 [H2 [HU2 HC2]]].
   assert (Hre: estop (tk rbr) = true) by (rewrite Hrk; reflexivity).
-  destruct (HEi s2 li rbr rest HSi HU2 Hre) as [fi [Ni [s3 [H3 [HU3 HNi]]]]].
+  destruct (HEi s2 li rbr rest HSi HU2 Hre) as [fi [Ni [s3 [H3 [HU3 [HNi HL3]]]]]].
   assert (Hrb: kind_eqb (tk rbr) K_RBRACKET = true) by (rewrite Hrk; reflexivity).
-  destruct (expect_up P s3 rbr _ K_RBRACKET HU3 Hrb) as [s4 [H4 [HU4 _]]].
+  destruct (expect_up P s3 rbr _ K_RBRACKET HU3 Hrb) as [s4 [H4 [HU4 HC4]]].
   rewrite EX in HNb. destruct (strip_vnode _ _ _ _ HNb) as [fs' [co' ENb]].
   exists (db + fi + 1), (mkN P C_ArrayRef [Nb; Ni] co'), s4. split; [exact HU4|]. split; [unfold mkN; cbn [strip map]; rewrite HNb, HNi, EX; reflexivity|].
-  intros f Hf. destruct (Hred f) as [f1 [Hf1 E1]]; [lia|]. destruct f1 as [|g]; [lia|]. exists g. split; [lia|].
+  split; [cost_tac|]. intros f Hf. destruct (Hred f) as [f1 [Hf1 E1]]; [lia|]. destruct f1 as [|g]; [lia|]. exists g. split; [lia|].
   rewrite E1. rewrite (UnaryShape.suffix_eq P). unfold bind at 1. rewrite H2. unfold bind at 1. rewrite (H3 g) by lia.
   unfold bind at 1. rewrite H4. unfold bind at 1. unfold coordA, lift_opt. rewrite ENb. cbn [get_coord]. reflexivity.
 Qed.
@@ -338,16 +338,16 @@ Proof.
   rewrite <- app_assoc in HU. cbn [app] in HU.
   unfold memop_ok in Hm. unfold opk in Hok. destruct (punct_kind_l ty) as [k|]; [|discriminate Hm]. rewrite <- Hok in Hm.
   destruct (mem_kind_facts _ Hm) as [HnoLB [HnoLP Hpa]].
-  destruct (HRb s lb _ HSb HU) as [db [Nb [s1 [HU1 [HNb Hred]]]]].
-  destruct (accept_miss P s1 opt _ K_LBRACKET HU1 HnoLB) as [s2 [H2 [HU2 _]]].
-  destruct (accept_miss P s2 opt _ K_LPAREN HU2 HnoLP) as [s3 [H3 [HU3 _]]].
-  destruct (peek_kind_up P s3 opt _ HU3) as [s4 [H4 [HU4 _]]].
-  destruct (advance_up P s4 opt _ HU4) as [s5 [H5 [HU5 _]]].
-  destruct (advance_up P s5 nt _ HU5) as [s6 [H6 [HU6 _]]].
+  destruct (HRb s lb _ HSb HU) as [db [Nb [s1 [HU1 [HNb [HL1 Hred]]]]]].
+  destruct (accept_miss P s1 opt _ K_LBRACKET HU1 HnoLB) as [s2 [H2 [HU2 HC2]]].
+  destruct (accept_miss P s2 opt _ K_LPAREN HU2 HnoLP) as [s3 [H3 [HU3 HC3]]].
+  destruct (peek_kind_up P s3 opt _ HU3) as [s4 [H4 [HU4 HC4]]].
+  destruct (advance_up P s4 opt _ HU4) as [s5 [H5 [HU5 HC5]]].
+  destruct (advance_up P s5 nt _ HU5) as [s6 [H6 [HU6 HC6]]].
   rewrite EX in HNb. destruct (strip_vnode _ _ _ _ HNb) as [fs' [co' ENb]].
   exists (db + 1), (mkN P C_StructRef [Nb; VStr (tv opt); mkN P C_ID [VStr (tv nt)] (Some (mkCoord P (curfile P s6) (tp nt)))] co'), s6.
   split; [exact HU6|]. split; [unfold mkN; cbn [strip map]; rewrite HNb, Hov, Hnv, EX; reflexivity|].
-  intros f Hf. destruct (Hred f) as [f1 [Hf1 E1]]; [lia|]. destruct f1 as [|g]; [lia|]. exists g. split; [lia|].
+  split; [cost_tac|]. intros f Hf. destruct (Hred f) as [f1 [Hf1 E1]]; [lia|]. destruct f1 as [|g]; [lia|]. exists g. split; [lia|].
   rewrite E1. rewrite (UnaryShape.suffix_eq P). unfold bind at 1. rewrite H2. unfold bind at 1. rewrite H3.
   unfold bind at 1. rewrite H4. rewrite Hpa. unfold bind at 1. rewrite H5. unfold bind at 1. rewrite H6.
   unfold bind at 1. rewrite tok_coord_eq.
@@ -363,18 +363,19 @@ Proof.
   pose proof HS as HS0. rewrite Ek in HS. destruct (RoundTrip.Spell_cons_inv P _ _ _ _ HS) as [x1 [tl [-> [Hk1 [_ HStl]]]]]. cbn [app] in HU.
   assert (Hpass: unary_pass (tk x1) = true) by (rewrite Hk1; exact Hhd).
   (* the two speculative "( type-name )" attempts give up *)
-  assert (Htp: forall s0, Up s0 (x1 :: tl ++ n :: l) -> exists s1, (forall f, try_paren_type_name P (S f) s0 = Ok (None, s1)) /\ Up s1 (x1 :: tl ++ n :: l)).
+  assert (Htp: forall s0, Up s0 (x1 :: tl ++ n :: l) -> exists s1, (forall f, try_paren_type_name P (S f) s0 = Ok (None, s1)) /\ Up s1 (x1 :: tl ++ n :: l) /\ idx P s1 = idx P s0 /\ N.to_nat (ticks P s1) <= N.to_nat (ticks P s0) + 1).
   { intros s0 HU0. destruct (kind_eqb k K_LPAREN) eqn:El.
-    2: { apply tptn_no_paren; [exact HU0|]. rewrite Hk1. exact El. }
+    2: { destruct (tptn_no_paren_c P s0 x1 _ HU0) as [sa [Ha [HUa HSa]]]; [rewrite Hk1; exact El|]. exists sa. split; [exact Ha|split; [exact HUa|cost_tac]]. }
     - destruct (Hlp eq_refl) as [k2 [v2 [rest2 [-> [_ Hd2]]]]].
       destruct (RoundTrip.Spell_cons_inv P _ _ _ _ HStl) as [x2 [tl2 [-> [Hk2 [_ _]]]]]. cbn [app] in HU0 |- *.
-      apply tptn_not_type; [exact HU0|rewrite Hk1; exact El|rewrite Hk2; exact Hd2]. }
-  destruct (Htp s HU) as [s1 [H1 HU1]].
-  destruct (peek_kind_up P s1 x1 _ HU1) as [s2 [H2 [HU2 _]]].
-  destruct (Htp s2 HU2) as [s3 [H3 HU3]].
-  destruct (HR s3 (x1 :: tl) (n :: l) HS0 HU3) as [d [N [s4 [HU4 [HN Hred]]]]].
-  destruct (suffixes_stop P s4 n l HU4 Hq) as [s5 [H5 HU5]].
-  exists (d + 5), N, s5. split; [|split; [exact HU5|exact HN]].
+      destruct (tptn_not_type_c P s0 x1 x2 _ HU0) as [sa [Ha [HUa [Hia Hta]]]]; [rewrite Hk1; exact El|rewrite Hk2; exact Hd2|].
+      exists sa. split; [exact Ha|split; [exact HUa|split; [exact Hia|rewrite Hta; lia]]]. }
+  destruct (Htp s HU) as [s1 [H1 [HU1 HC1]]].
+  destruct (peek_kind_up P s1 x1 _ HU1) as [s2 [H2 [HU2 HC2]]].
+  destruct (Htp s2 HU2) as [s3 [H3 [HU3 HC3]]].
+  destruct (HR s3 (x1 :: tl) (n :: l) HS0 HU3) as [d [N [s4 [HU4 [HN [HL4 Hred]]]]]].
+  destruct (suffixes_stop_c P s4 n l HU4 Hq) as [s5 [H5 [HU5 HC5]]].
+  exists (d + 5), N, s5. split; [|split; [exact HU5|split; [exact HN|cost_tac]]].
   intros f Hf. destruct f as [|[|[|[|f]]]]; try lia.
   rewrite (cast_eq P). unfold bind at 1. rewrite H1. rewrite (unary_pass_eq P _ _ _ _ H2 Hpass).
   rewrite (postfix_eq P). unfold bind at 1. rewrite H3. unfold bind at 1. unfold complit_of at 1. unfold ret at 1.
@@ -397,11 +398,11 @@ Proof.
   intros k v ty Hc s le rest HS HU. destruct (RoundTrip.Spell_cons_inv P _ _ _ _ HS) as [t [l2 [-> [Hk [Hv HS2]]]]].
   apply (RoundTrip.Spell_nil_inv P) in HS2. subst l2. cbn [app] in HU.
   pose proof (const_ok_kind _ _ _ Hc) as Hkk. destruct (const_kind_facts _ Hkk) as (HnoID & _).
-  destruct (peek_kind_up P s t _ HU) as [s1 [H1 [HU1 _]]].
-  destruct (advance_up P s1 t _ HU1) as [s2 [H2 [HU2 _]]].
+  destruct (peek_kind_up P s t _ HU) as [s1 [H1 [HU1 HC1]]].
+  destruct (advance_up P s1 t _ HU1) as [s2 [H2 [HU2 HC2]]].
   exists 1, (mkConstant P ty (tv t) (Some (mkCoord P (curfile P s2) (tp t)))), s2. split; [exact HU2|].
   split; [unfold mkConstant, mkN; cbn [strip map]; rewrite Hv; reflexivity|].
-  intros f Hf. destruct f as [|f]; [lia|]. exists (S f). split; [lia|].
+  split; [cost_tac|]. intros f Hf. destruct f as [|f]; [lia|]. exists (S f). split; [lia|].
   unfold bind at 1. rewrite (primary_eq P). unfold bind at 1. rewrite H1. rewrite Hk, HnoID.
   change (okind_in (Some k) tbl_INT_CONST || okind_in (Some k) tbl_FLOAT_CONST || okind_in (Some k) tbl_CHAR_CONST)
     with (kind_in k tbl_INT_CONST || kind_in k tbl_FLOAT_CONST || kind_in k tbl_CHAR_CONST). rewrite Hkk.
@@ -419,13 +420,13 @@ Definition ctoks (kl: list (list (kind * str) * value unit)) : list (kind * str)
 
 Lemma comma_run : forall kl, Forall (fun kx => AsgS (fst kx) (snd kx)) kl ->
   forall (s: pstate) le (stop: tok) l0, Spell le (ctoks kl) -> Up s (le ++ stop :: l0) -> estop (tk stop) = true ->
-  exists f0 Ns s', (forall f, f0 <= f -> p_comma_exprs P f s = Ok (Ns, s')) /\ Up s' (stop :: l0) /\ map strip Ns = map snd kl.
+  exists f0 Ns s', (forall f, f0 <= f -> p_comma_exprs P f s = Ok (Ns, s')) /\ Up s' (stop :: l0) /\ map strip Ns = map snd kl /\ Ran P s s' (length le).
 Proof.
   induction kl as [|[k1 X1] kl IH]; intros HF s le stop l0 HS HU Hst.
   - apply (RoundTrip.Spell_nil_inv P) in HS. subst le. cbn [app] in HU.
     destruct (estop_facts _ Hst) as [_ [_ [_ Hcomma]]].
-    destruct (accept_miss P s stop l0 K_COMMA HU Hcomma) as [s1 [H1 [HU1 _]]].
-    exists 1, [], s1. split; [|split; [exact HU1|reflexivity]]. intros f Hf. destruct f as [|f]; [lia|].
+    destruct (accept_miss P s stop l0 K_COMMA HU Hcomma) as [s1 [H1 [HU1 HC1]]].
+    exists 1, [], s1. split; [|split; [exact HU1|split; [reflexivity|cost_tac]]]. intros f Hf. destruct f as [|f]; [lia|].
     rewrite (comma_eq P). unfold bind at 1. rewrite H1. reflexivity.
   - inversion HF as [|x y HA HF']; subst x y. cbn [fst snd] in HA.
     unfold ctoks in HS. cbn [map concat fst] in HS. cbn [app] in HS.
@@ -433,7 +434,7 @@ Proof.
     destruct (RoundTrip.Spell_app_inv P _ _ _ HS2) as [l1 [lr [-> [HS1 HSr]]]].
     cbn [app] in HU. rewrite <- app_assoc in HU.
     assert (Hcc: kind_eqb (tk cm) K_COMMA = true) by (rewrite Hck; reflexivity).
-    destruct (accept_hit P s cm _ K_COMMA HU Hcc) as [s1 [H1 [HU1 _]]].
+    destruct (accept_hit P s cm _ K_COMMA HU Hcc) as [s1 [H1 [HU1 HC1]]].
     (* the token after this element: the next comma, or the final stop *)
     assert (Hnext: exists n l', lr ++ stop :: l0 = n :: l' /\ astop (tk n) = true).
     { destruct kl as [|[k2 X2] kl'].
@@ -441,9 +442,9 @@ Proof.
       - unfold ctoks in HSr. cbn [map concat fst app] in HSr. destruct (RoundTrip.Spell_cons_inv P _ _ _ _ HSr) as [c2 [l3 [-> [Hc2 _]]]].
         exists c2, (l3 ++ stop :: l0). split; [reflexivity|rewrite Hc2; reflexivity]. }
     destruct Hnext as [n [l' [En Hn]]]. rewrite En in HU1.
-    destruct (HA s1 l1 n l' HS1 HU1 Hn) as [f1 [N1 [s2 [H2 [HU2 HN1]]]]]. rewrite <- En in HU2.
-    destruct (IH HF' s2 lr stop l0 HSr HU2 Hst) as [f2 [Ns [s3 [H3 [HU3 HNs]]]]].
-    exists (S (Nat.max f1 f2)), (N1 :: Ns), s3. split; [|split; [exact HU3|cbn [map snd]; rewrite HN1, HNs; reflexivity]].
+    destruct (HA s1 l1 n l' HS1 HU1 Hn) as [f1 [N1 [s2 [H2 [HU2 [HN1 HL2]]]]]]. rewrite <- En in HU2.
+    destruct (IH HF' s2 lr stop l0 HSr HU2 Hst) as [f2 [Ns [s3 [H3 [HU3 [HNs HL3]]]]]].
+    exists (S (Nat.max f1 f2)), (N1 :: Ns), s3. split; [|split; [exact HU3|split; [cbn [map snd]; rewrite HN1, HNs; reflexivity|cost_tac]]].
     intros f Hf. destruct f as [|f]; [lia|]. rewrite (comma_eq P). unfold bind at 1. rewrite H1.
     unfold bind at 1. rewrite (H2 f) by lia. unfold bind at 1. rewrite (H3 f) by lia. reflexivity.
 Qed.
@@ -466,9 +467,9 @@ Proof.
   destruct (RoundTrip.Spell_app_inv P _ _ _ HS2) as [l2' [l3 [-> [HS2' HS3]]]].
   rewrite <- app_assoc in HU. cbn [app] in HU. rewrite <- app_assoc in HU.
   assert (Hca: astop (tk cm) = true) by (rewrite Hck; reflexivity).
-  destruct (HA1 s l1 cm _ HS1 HU Hca) as [f1 [N1 [s1 [H1 [HU1 HN1]]]]].
+  destruct (HA1 s l1 cm _ HS1 HU Hca) as [f1 [N1 [s1 [H1 [HU1 [HN1 HL1]]]]]].
   assert (Hcc: kind_eqb (tk cm) K_COMMA = true) by (rewrite Hck; reflexivity).
-  destruct (accept_hit P s1 cm _ K_COMMA HU1 Hcc) as [s2 [H2 [HU2 _]]].
+  destruct (accept_hit P s1 cm _ K_COMMA HU1 Hcc) as [s2 [H2 [HU2 HC2]]].
   assert (HS3': Spell l3 (ctoks kl)).
   { unfold ctoks. unfold RoundTrip.Spell in *. rewrite HS3. rewrite map_map. reflexivity. }
   assert (Hnext: exists n l', l3 ++ stop :: l0 = n :: l' /\ astop (tk n) = true).
@@ -477,10 +478,10 @@ Proof.
     - unfold ctoks in HS3'. cbn [map concat fst app] in HS3'. destruct (RoundTrip.Spell_cons_inv P _ _ _ _ HS3') as [c2 [l4 [-> [Hc2 _]]]].
       exists c2, (l4 ++ stop :: l0). split; [reflexivity|rewrite Hc2; reflexivity]. }
   destruct Hnext as [n [l' [En Hn]]]. rewrite En in HU2.
-  destruct (HA2 s2 l2' n l' HS2' HU2 Hn) as [f2 [N2 [s3 [H3 [HU3 HN2]]]]]. rewrite <- En in HU3.
-  destruct (comma_run kl HF s3 l3 stop l0 HS3' HU3 Hst) as [f3 [Ns [s4 [H4 [HU4 HNs]]]]].
+  destruct (HA2 s2 l2' n l' HS2' HU2 Hn) as [f2 [N2 [s3 [H3 [HU3 [HN2 HL3]]]]]]. rewrite <- En in HU3.
+  destruct (comma_run kl HF s3 l3 stop l0 HS3' HU3 Hst) as [f3 [Ns [s4 [H4 [HU4 [HNs HL4]]]]]].
   rewrite EX in HN1. destruct (strip_vnode _ _ _ _ HN1) as [fs' [co' EN1]].
-  exists (S (Nat.max f1 (Nat.max f2 f3))), (mkN P C_ExprList [VList (N1 :: N2 :: Ns)] co'), s4. split; [|split; [exact HU4|]].
+  exists (S (Nat.max f1 (Nat.max f2 f3))), (mkN P C_ExprList [VList (N1 :: N2 :: Ns)] co'), s4. split; [|split; [exact HU4|split; [|cost_tac]]].
   - intros f Hf. destruct f as [|f]; [lia|]. rewrite (expr_eq P). unfold bind at 1. rewrite (H1 f) by lia.
     unfold bind at 1. rewrite H2. unfold bind at 1. rewrite (H3 f) by lia. unfold bind at 1. rewrite (H4 f) by lia.
     unfold bind at 1. unfold coordA, lift_opt. rewrite EN1. cbn [get_coord]. reflexivity.
@@ -496,16 +497,16 @@ Proof.
   destruct (RoundTrip.Spell_cons_inv P _ _ _ _ HS2) as [lp [l3 [-> [Hlk [_ HS3]]]]].
   destruct (RoundTrip.Spell_cons_inv P _ _ _ _ HS3) as [rpt [l4 [-> [Hrk [_ HS4]]]]]. apply (RoundTrip.Spell_nil_inv P) in HS4. subst l4.
   rewrite <- app_assoc in HU. cbn [app] in HU.
-  destruct (HRb s lb _ HSb HU) as [db [Nb [s1 [HU1 [HNb Hred]]]]].
+  destruct (HRb s lb _ HSb HU) as [db [Nb [s1 [HU1 [HNb [HL1 Hred]]]]]].
   assert (HnoLB: kind_eqb (tk lp) K_LBRACKET = false) by (rewrite Hlk; reflexivity).
-  destruct (accept_miss P s1 lp _ K_LBRACKET HU1 HnoLB) as [s2 [H2 [HU2 _]]].
+  destruct (accept_miss P s1 lp _ K_LBRACKET HU1 HnoLB) as [s2 [H2 [HU2 HC2]]].
   assert (HLP: kind_eqb (tk lp) K_LPAREN = true) by (rewrite Hlk; reflexivity).
-  destruct (accept_hit P s2 lp _ K_LPAREN HU2 HLP) as [s3 [H3 [HU3 _]]].
-  destruct (peek_kind_up P s3 rpt _ HU3) as [s4 [H4 [HU4 _]]].
-  destruct (advance_up P s4 rpt _ HU4) as [s5 [H5 [HU5 _]]].
+  destruct (accept_hit P s2 lp _ K_LPAREN HU2 HLP) as [s3 [H3 [HU3 HC3]]].
+  destruct (peek_kind_up P s3 rpt _ HU3) as [s4 [H4 [HU4 HC4]]].
+  destruct (advance_up P s4 rpt _ HU4) as [s5 [H5 [HU5 HC5]]].
   rewrite EX in HNb. destruct (strip_vnode _ _ _ _ HNb) as [fs' [co' ENb]].
   exists (db + 1), (mkN P C_FuncCall [Nb; VNone] co'), s5. split; [exact HU5|]. split; [unfold mkN; cbn [strip map]; rewrite HNb, EX; reflexivity|].
-  intros f Hf. destruct (Hred f) as [f1 [Hf1 E1]]; [lia|]. destruct f1 as [|g]; [lia|]. exists g. split; [lia|].
+  split; [cost_tac|]. intros f Hf. destruct (Hred f) as [f1 [Hf1 E1]]; [lia|]. destruct f1 as [|g]; [lia|]. exists g. split; [lia|].
   rewrite E1. rewrite (UnaryShape.suffix_eq P). unfold bind at 1. rewrite H2. unfold bind at 1. rewrite H3.
   unfold bind at 1. rewrite H4. rewrite Hrk. cbn [okind_is]. change (kind_eqb K_RPAREN K_RPAREN) with true. cbv iota.
   unfold bind at 1. unfold bind at 1. rewrite H5. unfold ret at 1.
@@ -524,15 +525,15 @@ Proof.
   destruct (RoundTrip.Spell_cons_inv P _ _ _ _ HS4) as [rpt [l5 [-> [Hrk [_ HS5]]]]]. apply (RoundTrip.Spell_nil_inv P) in HS5. subst l5.
   rewrite commas_cons in HSa. destruct (RoundTrip.Spell_app_inv P _ _ _ HSa) as [l1 [lr [-> [HS1 HSr]]]].
   rewrite <- app_assoc in HU. cbn [app] in HU. rewrite <- app_assoc in HU. cbn [app] in HU. rewrite <- app_assoc in HU.
-  destruct (HRb s lb _ HSb HU) as [db [Nb [s1 [HU1 [HNb Hred]]]]].
+  destruct (HRb s lb _ HSb HU) as [db [Nb [s1 [HU1 [HNb [HL1 Hred]]]]]].
   assert (HnoLB: kind_eqb (tk lp) K_LBRACKET = false) by (rewrite Hlk; reflexivity).
-  destruct (accept_miss P s1 lp _ K_LBRACKET HU1 HnoLB) as [s2 [H2 [HU2 _]]].
+  destruct (accept_miss P s1 lp _ K_LBRACKET HU1 HnoLB) as [s2 [H2 [HU2 HC2]]].
   assert (HLP: kind_eqb (tk lp) K_LPAREN = true) by (rewrite Hlk; reflexivity).
-  destruct (accept_hit P s2 lp _ K_LPAREN HU2 HLP) as [s3 [H3 [HU3 _]]].
+  destruct (accept_hit P s2 lp _ K_LPAREN HU2 HLP) as [s3 [H3 [HU3 HC3]]].
   (* first token of the first argument: not ')' *)
   destruct Hfo as [k [v [rest1 [Ek [Hsk _]]]]]. pose proof HS1 as HS1'. rewrite Ek in HS1'.
   destruct (RoundTrip.Spell_cons_inv P _ _ _ _ HS1') as [x1 [tl1 [El1 [Hkx [_ _]]]]]. subst l1. cbn [app] in HU3.
-  destruct (peek_kind_up P s3 x1 _ HU3) as [s4 [H4 [HU4 _]]].
+  destruct (peek_kind_up P s3 x1 _ HU3) as [s4 [H4 [HU4 HC4]]].
   assert (HnoRP: okind_is (Some (tk x1)) K_RPAREN = false) by (rewrite Hkx; exact (proj2 (startk_facts _ Hsk))).
   assert (HSr': Spell lr (ctoks kl)).
   { unfold ctoks. unfold RoundTrip.Spell in *. rewrite HSr. rewrite map_map. reflexivity. }
@@ -544,15 +545,15 @@ Proof.
       exists c2, (l6 ++ rpt :: rest). split; [reflexivity|rewrite Hc2; reflexivity]. }
   destruct Hnext as [n [l' [En Hn]]].
   change (x1 :: tl1 ++ lr ++ rpt :: rest) with ((x1 :: tl1) ++ lr ++ rpt :: rest) in HU4. rewrite En in HU4.
-  destruct (HA1 s4 (x1 :: tl1) n l' HS1 HU4 Hn) as [f1 [N1 [s5 [H5 [HU5 HN1]]]]]. rewrite <- En in HU5.
-  destruct (comma_run kl HF s5 lr rpt rest HSr' HU5 Hre) as [f2 [Ns [s6 [H6 [HU6 HNs]]]]].
+  destruct (HA1 s4 (x1 :: tl1) n l' HS1 HU4 Hn) as [f1 [N1 [s5 [H5 [HU5 [HN1 HL5]]]]]]. rewrite <- En in HU5.
+  destruct (comma_run kl HF s5 lr rpt rest HSr' HU5 Hre) as [f2 [Ns [s6 [H6 [HU6 [HNs HL6]]]]]].
   assert (HRP: kind_eqb (tk rpt) K_RPAREN = true) by (rewrite Hrk; reflexivity).
-  destruct (expect_up P s6 rpt _ K_RPAREN HU6 HRP) as [s7 [H7 [HU7 _]]].
+  destruct (expect_up P s6 rpt _ K_RPAREN HU6 HRP) as [s7 [H7 [HU7 HC7]]].
   rewrite EX in HNb. destruct (strip_vnode _ _ _ _ HNb) as [fs' [co' ENb]].
   rewrite EX1 in HN1. destruct (strip_vnode _ _ _ _ HN1) as [fs1' [co1' EN1]].
   exists (db + S (S (Nat.max f1 f2))), (mkN P C_FuncCall [Nb; mkN P C_ExprList [VList (N1 :: Ns)] co1'] co'), s7. split; [exact HU7|].
   split; [unfold mkN; cbn [strip map]; rewrite HNb, HN1, HNs, EX, EX1; reflexivity|].
-  intros f Hf. destruct (Hred f) as [f1' [Hf1 E1]]; [lia|]. destruct f1' as [|[|g]]; try lia. exists (S g). split; [lia|].
+  split; [cost_tac|]. intros f Hf. destruct (Hred f) as [f1' [Hf1 E1]]; [lia|]. destruct f1' as [|[|g]]; try lia. exists (S g). split; [lia|].
   rewrite E1. rewrite (UnaryShape.suffix_eq P). unfold bind at 1. rewrite H2. unfold bind at 1. rewrite H3.
   unfold bind at 1. rewrite H4. rewrite HnoRP.
   unfold bind at 1. unfold bind at 1. rewrite (args_eq P). unfold bind at 1. rewrite (H5 g) by lia.
@@ -575,17 +576,18 @@ Proof.
   rewrite Ek in Ek'. injection Ek' as <- <- <-.
   pose proof HS as HS0. rewrite Ek in HS. destruct (RoundTrip.Spell_cons_inv P _ _ _ _ HS) as [x1 [tl [-> [Hk1 [_ HStl]]]]]. cbn [app] in HU.
   assert (Hpass: unary_pass (tk x1) = true) by (rewrite Hk1; exact Hhd).
-  destruct (peek_kind_up P s x1 _ HU) as [s2 [H2 [HU2 _]]].
-  assert (Htp: exists s3, (forall f, try_paren_type_name P (S f) s2 = Ok (None, s3)) /\ Up s3 (x1 :: tl ++ n :: l)).
+  destruct (peek_kind_up P s x1 _ HU) as [s2 [H2 [HU2 HC2]]].
+  assert (Htp: exists s3, (forall f, try_paren_type_name P (S f) s2 = Ok (None, s3)) /\ Up s3 (x1 :: tl ++ n :: l) /\ idx P s3 = idx P s2 /\ N.to_nat (ticks P s3) <= N.to_nat (ticks P s2) + 1).
   { destruct (kind_eqb k K_LPAREN) eqn:El.
-    2: { apply tptn_no_paren; [exact HU2|]. rewrite Hk1. exact El. }
+    2: { destruct (tptn_no_paren_c P s2 x1 _ HU2) as [sa [Ha [HUa HSa]]]; [rewrite Hk1; exact El|]. exists sa. split; [exact Ha|split; [exact HUa|cost_tac]]. }
     destruct (Hlp eq_refl) as [k2 [v2 [rest2 [-> [_ Hd2]]]]].
     destruct (RoundTrip.Spell_cons_inv P _ _ _ _ HStl) as [x2 [tl2 [-> [Hk2 [_ _]]]]]. cbn [app] in HU2 |- *.
-    apply tptn_not_type; [exact HU2|rewrite Hk1; exact El|rewrite Hk2; exact Hd2]. }
-  destruct Htp as [s3 [H3 HU3]].
-  destruct (HR s3 (x1 :: tl) (n :: l) HS0 HU3) as [d [N [s4 [HU4 [HN Hred]]]]].
-  destruct (suffixes_stop P s4 n l HU4 Hq) as [s5 [H5 HU5]].
-  exists (d + 4), N, s5. split; [|split; [exact HU5|exact HN]].
+    destruct (tptn_not_type_c P s2 x1 x2 _ HU2) as [sa [Ha [HUa [Hia Hta]]]]; [rewrite Hk1; exact El|rewrite Hk2; exact Hd2|].
+    exists sa. split; [exact Ha|split; [exact HUa|split; [exact Hia|rewrite Hta; lia]]]. }
+  destruct Htp as [s3 [H3 [HU3 HC3]]].
+  destruct (HR s3 (x1 :: tl) (n :: l) HS0 HU3) as [d [N [s4 [HU4 [HN [HL4 Hred]]]]]].
+  destruct (suffixes_stop_c P s4 n l HU4 Hq) as [s5 [H5 [HU5 HC5]]].
+  exists (d + 4), N, s5. split; [|split; [exact HU5|split; [exact HN|cost_tac]]].
   intros f Hf. destruct f as [|[|[|f]]]; try lia.
   rewrite (unary_pass_eq P _ _ _ _ H2 Hpass).
   rewrite (postfix_eq P). unfold bind at 1. rewrite H3. unfold bind at 1. unfold complit_of at 1. unfold ret at 1.
@@ -599,12 +601,12 @@ Proof.
   destruct (RoundTrip.Spell_cons_inv P _ _ _ _ HS) as [t [la' [-> [Hk [Hv HS']]]]]. cbn [app] in HU.
   unfold incdec_ok in Ho. unfold opk in Hk. destruct (punct_kind_l o) as [k|]; [|discriminate Ho].
   destruct (incdec_kind_facts k Ho) as (HnoLP & Hpp & _). rewrite <- Hk in HnoLP, Hpp.
-  destruct (tptn_no_paren P s t _ HU HnoLP) as [s1 [H1 HU1]].
-  destruct (peek_kind_up P s1 t _ HU1) as [s2 [H2 [HU2 _]]].
-  destruct (advance_up P s2 t _ HU2) as [s3 [H3 [HU3 _]]].
-  destruct (HC s3 la' n l HS' HU3 Hq) as [f0 [N [s4 [H4 [HU4 HN]]]]].
+  destruct (tptn_no_paren_c P s t _ HU HnoLP) as [s1 [H1 [HU1 HC1]]].
+  destruct (peek_kind_up P s1 t _ HU1) as [s2 [H2 [HU2 HC2]]].
+  destruct (advance_up P s2 t _ HU2) as [s3 [H3 [HU3 HC3]]].
+  destruct (HC s3 la' n l HS' HU3 Hq) as [f0 [N [s4 [H4 [HU4 [HN HL4]]]]]].
   rewrite EX in HN. destruct (strip_vnode _ _ _ _ HN) as [fs' [co' EN]].
-  exists (S (S f0)), (mkN P C_UnaryOp [VStr (tv t); N] co'), s4. split; [|split; [exact HU4|]].
+  exists (S (S f0)), (mkN P C_UnaryOp [VStr (tv t); N] co'), s4. split; [|split; [exact HU4|split; [|cost_tac]]].
   - intros f Hf. destruct f as [|[|f]]; try lia. rewrite (cast_eq P). unfold bind at 1. rewrite H1.
     rewrite (unary_eq P). unfold bind at 1. rewrite H2. rewrite Hpp.
     unfold bind at 1. rewrite H3. unfold bind at 1. rewrite (H4 f) by lia. unfold bind at 1.
@@ -621,15 +623,15 @@ Proof.
   rewrite <- app_assoc in HU. cbn [app] in HU.
   unfold incdec_ok in Ho. unfold opk in Hok. destruct (punct_kind_l o) as [k|]; [|discriminate Ho]. rewrite <- Hok in Ho.
   destruct (incdec_kind_facts _ Ho) as (HnoLP & Hpp & HnoLB & Hnopa & _).
-  destruct (HRb s lb _ HSb HU) as [db [Nb [s1 [HU1 [HNb Hred]]]]].
-  destruct (accept_miss P s1 opt _ K_LBRACKET HU1 HnoLB) as [s2 [H2 [HU2 _]]].
-  destruct (accept_miss P s2 opt _ K_LPAREN HU2 HnoLP) as [s3 [H3 [HU3 _]]].
-  destruct (peek_kind_up P s3 opt _ HU3) as [s4 [H4 [HU4 _]]].
-  destruct (advance_up P s4 opt _ HU4) as [s5 [H5 [HU5 _]]].
+  destruct (HRb s lb _ HSb HU) as [db [Nb [s1 [HU1 [HNb [HL1 Hred]]]]]].
+  destruct (accept_miss P s1 opt _ K_LBRACKET HU1 HnoLB) as [s2 [H2 [HU2 HC2]]].
+  destruct (accept_miss P s2 opt _ K_LPAREN HU2 HnoLP) as [s3 [H3 [HU3 HC3]]].
+  destruct (peek_kind_up P s3 opt _ HU3) as [s4 [H4 [HU4 HC4]]].
+  destruct (advance_up P s4 opt _ HU4) as [s5 [H5 [HU5 HC5]]].
   rewrite EX in HNb. destruct (strip_vnode _ _ _ _ HNb) as [fs' [co' ENb]].
   exists (db + 1), (mkN P C_UnaryOp [VStr (112%N :: tv opt); Nb] co'), s5. split; [exact HU5|].
   split; [unfold mkN; cbn [strip map]; rewrite HNb, Hov, EX; reflexivity|].
-  intros f Hf. destruct (Hred f) as [f1 [Hf1 E1]]; [lia|]. destruct f1 as [|g]; [lia|]. exists g. split; [lia|].
+  split; [cost_tac|]. intros f Hf. destruct (Hred f) as [f1 [Hf1 E1]]; [lia|]. destruct f1 as [|g]; [lia|]. exists g. split; [lia|].
   rewrite E1. rewrite (UnaryShape.suffix_eq P). unfold bind at 1. rewrite H2. unfold bind at 1. rewrite H3.
   unfold bind at 1. rewrite H4. rewrite Hnopa, Hpp. unfold bind at 1. rewrite H5.
   unfold bind at 1. unfold coordA, lift_opt. rewrite ENb. cbn [get_coord]. reflexivity.
@@ -641,19 +643,19 @@ Proof.
   intros kx X Hfo HE s la n l HS HU Hq.
   destruct (RoundTrip.Spell_cons_inv P _ _ _ _ HS) as [t [la' [-> [Hk [Hv HS']]]]]. cbn [app] in HU.
   assert (HnoLP: kind_eqb (tk t) K_LPAREN = false) by (rewrite Hk; reflexivity).
-  destruct (tptn_no_paren P s t _ HU HnoLP) as [s1 [H1 HU1]].
-  destruct (peek_kind_up P s1 t _ HU1) as [s2 [H2 [HU2 _]]].
-  destruct (advance_up P s2 t _ HU2) as [s3 [H3 [HU3 _]]].
+  destruct (tptn_no_paren_c P s t _ HU HnoLP) as [s1 [H1 [HU1 HC1]]].
+  destruct (peek_kind_up P s1 t _ HU1) as [s2 [H2 [HU2 HC2]]].
+  destruct (advance_up P s2 t _ HU2) as [s3 [H3 [HU3 HC3]]].
   (* ( x ... : not a type name *)
   pose proof HS' as HS0. unfold parkv in HS'. destruct (RoundTrip.Spell_cons_inv P _ _ _ _ HS') as [lp [l2 [-> [Hlp [_ HS2]]]]].
   destruct Hfo as [k [v [rest [Ek [Hsk Hrest]]]]]. pose proof HS2 as HS2'. rewrite Ek in HS2'. cbn [app] in HS2'.
   destruct (RoundTrip.Spell_cons_inv P _ _ _ _ HS2') as [x [l3 [-> [Hx [_ _]]]]]. cbn [app] in HU3.
   assert (Hlpk: kind_eqb (tk lp) K_LPAREN = true) by (rewrite Hlp; reflexivity).
   assert (Hxd: kind_in (tk x) tbl_DECL_START = false) by (rewrite Hx; exact (proj1 (startk_facts _ Hsk))).
-  destruct (tptn_not_type P s3 lp x _ HU3 Hlpk Hxd) as [s4 [H4 HU4]].
+  destruct (tptn_not_type_c P s3 lp x _ HU3 Hlpk Hxd) as [s4 [H4 [HU4 HC4]]].
   assert (HfoP: first_ok (parkv kx)) by (apply first_ok_parkv; exists k, v, rest; split; [exact Ek|split; [exact Hsk|exact Hrest]]).
-  destruct (chain_unary (parkv kx) X HfoP (head_idlp_parkv kx) (R_paren kx X HE) s4 (lp :: x :: l3) n l HS0 HU4 Hq) as [f0 [N [s5 [H5 [HU5 HN]]]]].
-  exists (S (S (S f0))), (mkN P C_UnaryOp [VStr (tv t); N] (Some (mkCoord P (curfile P s5) (tp t)))), s5. split; [|split; [exact HU5|]].
+  destruct (chain_unary (parkv kx) X HfoP (head_idlp_parkv kx) (R_paren kx X HE) s4 (lp :: x :: l3) n l HS0 HU4 Hq) as [f0 [N [s5 [H5 [HU5 [HN HL5]]]]]].
+  exists (S (S (S f0))), (mkN P C_UnaryOp [VStr (tv t); N] (Some (mkCoord P (curfile P s5) (tp t)))), s5. split; [|split; [exact HU5|split; [|cost_tac]]].
   - intros f Hf. destruct f as [|[|[|f]]]; try lia. rewrite (cast_eq P). unfold bind at 1. rewrite H1.
     rewrite (unary_eq P). unfold bind at 1. rewrite H2. rewrite Hk.
     change (okind_is (Some K_SIZEOF) K_PLUSPLUS || okind_is (Some K_SIZEOF) K_MINUSMINUS) with false.
@@ -876,9 +878,19 @@ Proof.
     apply cond_to_expr; [apply first_ok_parkv; exact Hf|apply cast_to_cond; apply paren_to_cast; assumption].
 Qed.
 
-(* parse . generate = id, token level: every expression of the language *)
+(* parse . generate = id, token level: every expression of the language - with the cost of the parse:
+   exactly the generated tokens are consumed, and next() is called at most three times per token *)
+Theorem parse_of_generated_expression_cost : forall e, wf e ->
+  forall (s: ParserBase.pstate P) le stop l0, RoundTrip.Spell P le (xt e) -> StreamLib.Up P s (le ++ stop :: l0) -> estop (tk stop) = true ->
+  exists f0 N s', (forall f, f0 <= f -> p_expression P f s = Ok (N, s')) /\ StreamLib.Up P s' (stop :: l0) /\ strip N = embx e /\
+    StreamLib.Ran P s s' (length le).
+Proof. intros e Hw. exact (T_expr e (T_all (size e) e (le_n _) Hw)). Qed.
+
 Theorem parse_of_generated_expression : forall e, wf e ->
   forall (s: ParserBase.pstate P) le stop l0, RoundTrip.Spell P le (xt e) -> StreamLib.Up P s (le ++ stop :: l0) -> estop (tk stop) = true ->
   exists f0 N s', (forall f, f0 <= f -> p_expression P f s = Ok (N, s')) /\ StreamLib.Up P s' (stop :: l0) /\ strip N = embx e.
-Proof. intros e Hw. exact (T_expr e (T_all (size e) e (le_n _) Hw)). Qed.
+Proof.
+  intros e Hw s le stop l0 HS HU Hst. destruct (parse_of_generated_expression_cost e Hw s le stop l0 HS HU Hst) as [f0 [N [s' [H [HU' [HN _]]]]]].
+  exists f0, N, s'. split; [exact H|split; [exact HU'|exact HN]].
+Qed.
 End MainX.
